@@ -62,7 +62,11 @@ def gen_case(rng, tier, k):
                           ("attractor_candidates_limit", [1, 2, 5, 50]), ("max_motifs_per_node", [1, 2, 4])):
             if rng.random() < 0.4:
                 cfg[key] = rng.choice(vals)
-    return {"bnet": bnet, "ops": ops, "cfg": cfg}
+    case = {"bnet": bnet, "ops": ops, "cfg": cfg}
+    if rng.random() < 0.05:
+        fam = rng.choice([["c_", "_c_", "c[", "c]"], ["a-b", "a+b", "a_b", "_a_b"], ["x.y", "x;y", "x~y"], ["q[1]", "q{1}", "q 1"]])
+        case["weird_names"] = fam[:rng.randint(2, len(fam))]
+    return case
 
 
 def wbound(n, d, budget):
@@ -79,6 +83,19 @@ def run_case(case):
     holder = {}
 
     def mk():
+        if case.get("weird_names"):
+            # variable names that sanitise to the same identifier (two and more clashes): `sanitize_network_names` and the
+            # construction on its result must terminate
+            from biobalm import SuccessionDiagram
+            from biobalm.petri_net_translation import sanitize_network_names
+            from biodivine_aeon import BooleanNetwork
+            bn = BooleanNetwork.from_bnet(case["bnet"])
+            for v, nm in zip(list(bn.variable_names()), case["weird_names"]):
+                bn.set_variable_name(v, nm)
+            cfg = SuccessionDiagram.default_config()
+            cfg.update(case.get("cfg", {}))
+            holder["sd"] = SuccessionDiagram(sanitize_network_names(bn), cfg)
+            return
         holder["sd"] = make_sd(case)
 
     m.run(None, mk)
